@@ -1,5 +1,5 @@
 (** C10 — route table maintenance follows the update, loop and cleanup rules. *)
-From Coq Require Import List NArith.
+From Coq Require Import List NArith Permutation.
 From MM Require Import Model.RouteTable Model.RouteTableSource Proofs.RouteTableBase Proofs.RouteTableProofs Proofs.RouteTableExamples Generated.C10.
 Import ListNotations.
 Local Open Scope N_scope.
@@ -13,9 +13,9 @@ Local Open Scope N_scope.
     same next hop): y = x or [newer y x]. *)
 
 (** Rule 1 (update rule), every step, all five maps. *)
-Theorem C10_replaced_only_by_newer : forall (local : N) (ops : list op) (o : op),
-  let m := run local ops in
-  let m' := next local m o in
+Theorem C10_replaced_only_by_newer : forall (local : N) (srt : sorter), sorter_ok srt -> forall (ops : list op) (o : op),
+  let m := run local srt ops in
+  let m' := next local srt m o in
   rule1 prefix_eqb same_origin (m_cidr m) (m_cidr m') /\
   rule1 str_eqb same_origin (m_dexact m) (m_dexact m') /\
   rule1 str_eqb same_origin (m_dwild m) (m_dwild m') /\
@@ -36,8 +36,8 @@ Proof. exact @newer_spec. Qed.
 (** ... and the slot of a stored route identifies it: one route per key and
     origin (per key, origin and next hop in the agent table), in every
     reachable state; so rule 1 speaks about "the" stored route of an origin. *)
-Theorem C10_one_route_per_origin : forall (local : N) (ops : list op),
-  let m := run local ops in
+Theorem C10_one_route_per_origin : forall (local : N) (srt : sorter), sorter_ok srt -> forall (ops : list op),
+  let m := run local srt ops in
   (forall k x y, stored prefix_eqb (m_cidr m) k x -> stored prefix_eqb (m_cidr m) k y -> e_origin x = e_origin y -> x = y) /\
   (forall k x y, stored str_eqb (m_dexact m) k x -> stored str_eqb (m_dexact m) k y -> e_origin x = e_origin y -> x = y) /\
   (forall k x y, stored str_eqb (m_dwild m) k x -> stored str_eqb (m_dwild m) k y -> e_origin x = e_origin y -> x = y) /\
@@ -49,8 +49,8 @@ Print Assumptions C10_one_route_per_origin.
 
 (** Rule 2 (loop rule): in every reachable state no stored route's path
     contains the local agent. *)
-Theorem C10_no_self_in_path : forall (local : N) (ops : list op),
-  let m := run local ops in
+Theorem C10_no_self_in_path : forall (local : N) (srt : sorter), sorter_ok srt -> forall (ops : list op),
+  let m := run local srt ops in
   (forall x, route_in (m_cidr m) x -> ~ In local (e_path x)) /\
   (forall x, route_in (m_dexact m) x -> ~ In local (e_path x)) /\
   (forall x, route_in (m_dwild m) x -> ~ In local (e_path x)) /\
@@ -64,19 +64,19 @@ Print Assumptions C10_no_self_in_path.
     hop is not the peer (order preserved), and leaves the other tables
     untouched. [filtered eqb f t t']: for every key k the bucket of k in t' is
     [filter f] of the bucket of k in t. *)
-Theorem C10_disconnect_removes_exactly_the_peers_routes : forall (local : N) (ops : list op) (p : N),
-  let m := run local ops in
-  (let m' := next local m (ODisc p) in
+Theorem C10_disconnect_removes_exactly_the_peers_routes : forall (local : N) (srt : sorter), sorter_ok srt -> forall (ops : list op) (p : N),
+  let m := run local srt ops in
+  (let m' := next local srt m (ODisc p) in
    filtered prefix_eqb (keep_peer p) (m_cidr m) (m_cidr m') /\
    m_dexact m' = m_dexact m /\ m_dwild m' = m_dwild m /\ m_fwd m' = m_fwd m /\ m_agent m' = m_agent m) /\
-  (let m' := next local m (ODDisc p) in
+  (let m' := next local srt m (ODDisc p) in
    filtered str_eqb (keep_peer p) (m_dexact m) (m_dexact m') /\
    filtered str_eqb (keep_peer p) (m_dwild m) (m_dwild m') /\
    m_cidr m' = m_cidr m /\ m_fwd m' = m_fwd m /\ m_agent m' = m_agent m) /\
-  (let m' := next local m (OFDisc p) in
+  (let m' := next local srt m (OFDisc p) in
    filtered str_eqb (keep_peer p) (m_fwd m) (m_fwd m') /\
    m_cidr m' = m_cidr m /\ m_dexact m' = m_dexact m /\ m_dwild m' = m_dwild m /\ m_agent m' = m_agent m) /\
-  (let m' := next local m (OADisc p) in
+  (let m' := next local srt m (OADisc p) in
    filtered N.eqb (keep_peer p) (m_agent m) (m_agent m') /\
    m_cidr m' = m_cidr m /\ m_dexact m' = m_dexact m /\ m_dwild m' = m_dwild m /\ m_fwd m' = m_fwd m).
 Proof. exact disconnect_over_histories. Qed.
@@ -92,20 +92,20 @@ Proof. exact @filtered_peer_meaning. Qed.
     place keeping exactly the routes that are locally originated or whose age
     [m_now m - e_last x] is at most maxAge, and leaves the other tables
     untouched. In particular a locally originated route is never removed. *)
-Theorem C10_cleanup_removes_exactly_stale_nonlocal : forall (local : N) (ops : list op) (maxage : N),
-  let m := run local ops in
+Theorem C10_cleanup_removes_exactly_stale_nonlocal : forall (local : N) (srt : sorter), sorter_ok srt -> forall (ops : list op) (maxage : N),
+  let m := run local srt ops in
   let f {D} := @keep_fresh D local (m_now m) maxage in
-  (let m' := next local m (OClean maxage) in
+  (let m' := next local srt m (OClean maxage) in
    filtered prefix_eqb f (m_cidr m) (m_cidr m') /\
    m_dexact m' = m_dexact m /\ m_dwild m' = m_dwild m /\ m_fwd m' = m_fwd m /\ m_agent m' = m_agent m) /\
-  (let m' := next local m (ODClean maxage) in
+  (let m' := next local srt m (ODClean maxage) in
    filtered str_eqb f (m_dexact m) (m_dexact m') /\
    filtered str_eqb f (m_dwild m) (m_dwild m') /\
    m_cidr m' = m_cidr m /\ m_fwd m' = m_fwd m /\ m_agent m' = m_agent m) /\
-  (let m' := next local m (OFClean maxage) in
+  (let m' := next local srt m (OFClean maxage) in
    filtered str_eqb f (m_fwd m) (m_fwd m') /\
    m_cidr m' = m_cidr m /\ m_dexact m' = m_dexact m /\ m_dwild m' = m_dwild m /\ m_agent m' = m_agent m) /\
-  (let m' := next local m (OAClean maxage) in
+  (let m' := next local srt m (OAClean maxage) in
    filtered N.eqb f (m_agent m) (m_agent m') /\
    m_cidr m' = m_cidr m /\ m_dexact m' = m_dexact m /\ m_dwild m' = m_dwild m /\ m_fwd m' = m_fwd m).
 Proof. exact cleanup_over_histories. Qed.
@@ -125,9 +125,9 @@ Proof. exact filtered_keeps_local. Qed.
 (** The agent's disconnect handler runs the four disconnect operations in a
     row (source fact C10_source_facts): afterwards every table has lost
     exactly the routes learned through the peer. *)
-Theorem C10_peer_disconnect_all_tables : forall (local : N) (ops : list op) (p : N),
-  let m := run local ops in
-  let m' := run local (ops ++ [ODisc p; ODDisc p; OFDisc p; OADisc p]) in
+Theorem C10_peer_disconnect_all_tables : forall (local : N) (srt : sorter), sorter_ok srt -> forall (ops : list op) (p : N),
+  let m := run local srt ops in
+  let m' := run local srt (ops ++ [ODisc p; ODDisc p; OFDisc p; OADisc p]) in
   filtered prefix_eqb (keep_peer p) (m_cidr m) (m_cidr m') /\
   filtered str_eqb (keep_peer p) (m_dexact m) (m_dexact m') /\
   filtered str_eqb (keep_peer p) (m_dwild m) (m_dwild m') /\
@@ -141,10 +141,10 @@ Print Assumptions C10_peer_disconnect_all_tables.
     cleanup at the age boundary and a disconnect act as stated. Entries are
     (origin, next hop, metric, sequence, last update). *)
 Example C10_instances :
-  cproj (run 0 ex_rule_ops) = [(0, 0, 0, 1, 0); (2, 3, 2, 1, 0); (1, 2, 3, 5, 0)] /\
-  cproj (run 0 (ex_rule_ops ++ [OClean 999])) = [(0, 0, 0, 1, 0)] /\
-  cproj (run 0 (ex_rule_ops ++ [OClean 1000])) = cproj (run 0 ex_rule_ops) /\
-  cproj (run 0 (ex_rule_ops ++ [ODisc 3])) = [(0, 0, 0, 1, 0); (1, 2, 3, 5, 0)].
+  cproj (run 0 (@isort) ex_rule_ops) = [(0, 0, 0, 1, 0); (2, 3, 2, 1, 0); (1, 2, 3, 5, 0)] /\
+  cproj (run 0 (@isort) (ex_rule_ops ++ [OClean 999])) = [(0, 0, 0, 1, 0)] /\
+  cproj (run 0 (@isort) (ex_rule_ops ++ [OClean 1000])) = cproj (run 0 (@isort) ex_rule_ops) /\
+  cproj (run 0 (@isort) (ex_rule_ops ++ [ODisc 3])) = [(0, 0, 0, 1, 0); (1, 2, 3, 5, 0)].
 Proof. exact rule_examples. Qed.
 
 (** The facts regenerated from the four table files, manager.go and
@@ -162,3 +162,17 @@ Theorem C10_source_facts :
   gen_advertise_increments_metric = 3%N.
 Proof. repeat split; reflexivity. Qed.
 Print Assumptions C10_source_facts.
+
+(** The hypothesis on the sorting function: it returns a metric-sorted
+    permutation of its argument. Go's sort.Slice with the less function
+    "routes[i].Metric < routes[j].Metric" is such a function (stable or not);
+    the stable insertion sort that sort.Slice is for up to 12 elements, which
+    the correspondence check runs, satisfies it. *)
+Theorem C10_sorter_hypothesis_meaning : forall srt : sorter,
+  sorter_ok srt <->
+  forall (D : Type) (l : list (entry D)),
+    Permutation (srt D l) l /\ Sorted.StronglySorted (fun x y => e_metric x <= e_metric y) (srt D l).
+Proof. exact sorter_ok_meaning. Qed.
+
+Example C10_sorter_hypothesis_satisfiable : sorter_ok (@isort).
+Proof. exact isort_ok. Qed.
